@@ -307,7 +307,7 @@ def report(coh, rule_prefix, funcs=None, only_rules=None):
     ctx = coh.ctx
     sites = coh.compute()
     fq = None if funcs is None else {f if isinstance(f, str) else f.qual for f in funcs}
-    core = {g.qual for g in coh.ts.core_materialisers()}
+    core = materialisation_code(coh)
     for s in sites:
         f = s["func"]
         if fq is not None and f.qual not in fq:
@@ -325,6 +325,28 @@ def report(coh, rule_prefix, funcs=None, only_rules=None):
             why = _why(coh, f, s["path"])
             ctx.violated(rule, f, what, "%s may still be a lazy view here (%s): its geometry addresses the parent's "
                          "buffer, not its own" % (s["path"], why), node=s["node"], engine="E2")
+
+
+def materialisation_code(coh):
+    """quals of the materialisation step(s) and of their private helpers"""
+    ctx = coh.ctx
+    core = {g.qual for g in coh.ts.core_materialisers()}
+    # helpers of the materialisation step: private methods whose every resolved call site is `self.m(...)` inside the step (or
+    # inside another such helper) do part of its work - deciding how to gather, computing the gather positions - and share its
+    # licence to read the lazy geometry
+    R = coh.tk.R if hasattr(coh, "tk") else None
+    if R is not None:
+        changed = True
+        while changed:
+            changed = False
+            for q, g in ctx.program.funcs.items():
+                if q in core or g.cls is None or not g.params or not g.name.startswith("_") or g.name.startswith("__"):
+                    continue
+                cs = R.call_sites(g)
+                if cs and all(cfa.func.qual in core and c.a[0].k == "attr" and c.a[0].a[0].k == "param" and cfa.func.params and c.a[0].a[0].a[0] == cfa.func.params[0] for cfa, c in cs):
+                    core.add(q)
+                    changed = True
+    return core
 
 
 def _why(coh, f, path):
